@@ -517,11 +517,25 @@ pub fn generate(rng: &mut Rng, tier: Tier, workers: usize) -> Scenario {
             nodes.push(gen::random_spec(rng, tier, None));
         }
     }
-    let n_ops = match rng.below(4) {
+    let mut n_ops = match rng.below(4) {
         0 => rng.range(4, 20),
         1 => rng.range(20, 80),
         _ => rng.range(40, 600usize.min(60 + 6 * base.params.sum_periods(base.kind))),
     };
+    // "deep" runs: few instances with a large window, fed long enough to wrap it (state that is only
+    // consulted once the ring is full, e.g. a slot that was never written, shows only there)
+    let mut deep = false;
+    if rng.chance(0.02) && workers == 0 {
+        deep = true;
+        let p = rng.log_range(100, 1500);
+        for s in nodes.iter_mut() {
+            if s.kind == base.kind && !s.dflt {
+                s.params.p1 = p;
+            }
+        }
+        nodes.truncate(3);
+        n_ops = (2 * nodes.len() * (p + 2) + rng.range(0, 200)).min(9000);
+    }
     // each node has its own stream; some pairs deliberately share one
     let mut worlds: Vec<World> = vec![];
     let shared = World::random(rng);
@@ -536,6 +550,7 @@ pub fn generate(rng: &mut Rng, tier: Tier, workers: usize) -> Scenario {
         ops.push(Op::Gen { n: 0, g: World::random_desc(rng), skip: 0, len: rng.range(66_000, 80_000) as u64, fault, every: if fault.is_some() { rng.range(2, 3000) as u64 } else { 0 }, reset_every: 0, clone_every: 0 });
     }
     let n_ops = n_ops + ops.len();
+    let k0 = nodes.len();
     let mut live: Vec<usize> = (0..k0).collect();
     let mut next_id = k0;
     let mut buf = vec![];
@@ -545,7 +560,9 @@ pub fn generate(rng: &mut Rng, tier: Tier, workers: usize) -> Scenario {
             break;
         }
         let n = *rng.pick(&live);
-        match rng.below(100) {
+        // deep runs are almost only feeds: a reset or a drop every few ticks would never let the ring wrap
+        let roll = if deep && rng.chance(0.97) { 0 } else { rng.below(100) };
+        match roll {
             0..=74 => {
                 // lock-step: with some probability deliver the tick just delivered to another node
                 if let (true, Some((x, f))) = (rng.chance(0.2), last) {
